@@ -545,6 +545,10 @@ pub struct SchedEngine;
 
 impl Engine for SchedEngine {
     type Case = SchedCase;
+    fn hang_limit_secs(&self) -> u64 {
+        // cases of this engine take milliseconds
+        90
+    }
     fn property(&self) -> &str {
         "C15"
     }
